@@ -854,6 +854,24 @@ impl FunctionCompiler<'_> {
         self.compile_expr_with_args(expr, false)
     }
 
+    /// whether the expression names memory that exists on its own (so that its address can be
+    /// taken or assigned through), as opposed to a value that only lives in a register
+    fn is_place_expr(&self, expr: Idx<hir::Expr>) -> bool {
+        match &self.world_bodies[self.loc.file()][expr] {
+            hir::Expr::Paren(Some(inner)) => self.is_place_expr(*inner),
+            hir::Expr::Local(_)
+            | hir::Expr::LocalGlobal(_)
+            | hir::Expr::Index { .. }
+            | hir::Expr::Member { .. }
+            | hir::Expr::Deref { .. } => true,
+            hir::Expr::Directive { name, args } => {
+                self.interner.lookup(name.name.0) == "unwrap"
+                    && args.first().is_some_and(|arg| self.is_place_expr(*arg))
+            }
+            _ => false,
+        }
+    }
+
     /// `no_load` will cause the first encountered deref to not deref at all.
     /// this is used for assignment
     fn compile_expr_with_args(&mut self, expr: Idx<hir::Expr>, no_load: bool) -> Option<Value> {
@@ -1061,16 +1079,7 @@ impl FunctionCompiler<'_> {
                     place = inner;
                 }
 
-                if self.tys[self.loc][expr].is_aggregate()
-                    || matches!(
-                        self.world_bodies[self.loc.file()][place],
-                        hir::Expr::Local(_)
-                            | hir::Expr::LocalGlobal(_)
-                            | hir::Expr::Index { .. }
-                            | hir::Expr::Member { .. }
-                            | hir::Expr::Deref { .. }
-                    )
-                {
+                if self.tys[self.loc][expr].is_aggregate() || self.is_place_expr(place) {
                     // references to locals or globals should return the actual memory address of the local or global
                     let res = self.compile_expr_with_args(expr, true);
 
@@ -2219,11 +2228,28 @@ impl FunctionCompiler<'_> {
             hir::Expr::Import(_) => None,
             hir::Expr::Directive { name, args } => match self.interner.lookup(name.name.0) {
                 "unwrap" => {
-                    let sum_val = self
-                        .compile_expr(args[0])
-                        .expect("sum types are never zero-sized");
                     let sum_ty = self.tys[self.loc][args[0]];
                     assert!(sum_ty.is_sum_ty(), "{sum_ty:?} is not a sum type");
+
+                    // `#unwrap(o) = v` and `^mut #unwrap(o)` want the address of the payload inside
+                    // of `o` (it sits at offset 0), not a copy of the payload
+                    let payload_place = no_load && self.is_place_expr(args[0]);
+
+                    // an optional pointer is just the pointer: its address is only known if the
+                    // optional is compiled as a place
+                    let mut nullable_addr = None;
+                    let sum_val = if payload_place && !sum_ty.is_tagged_union() {
+                        let addr = self
+                            .compile_expr_with_args(args[0], true)
+                            .expect("sum types are never zero-sized");
+                        nullable_addr = Some(addr);
+                        self.builder
+                            .ins()
+                            .load(self.ptr_ty, MemFlags::trusted(), addr, 0)
+                    } else {
+                        self.compile_expr(args[0])
+                            .expect("sum types are never zero-sized")
+                    };
 
                     let variant_ty = self.tys[self.loc][expr];
                     assert!(
@@ -2258,7 +2284,11 @@ impl FunctionCompiler<'_> {
                             )),
                         );
 
-                        super::unwrap_sum_ty(&mut self.builder, sum_val, sum_ty, variant_ty)
+                        if payload_place && !variant_ty.is_zero_sized() {
+                            Some(sum_val)
+                        } else {
+                            super::unwrap_sum_ty(&mut self.builder, sum_val, sum_ty, variant_ty)
+                        }
                     } else {
                         assert!(sum_ty.is_optional());
                         assert!(!sum_ty.is_tagged_union());
@@ -2280,7 +2310,11 @@ impl FunctionCompiler<'_> {
                             )),
                         );
 
-                        super::unwrap_sum_ty(&mut self.builder, sum_val, sum_ty, variant_ty)
+                        if nullable_addr.is_some() && *variant_ty != Ty::Nil {
+                            nullable_addr
+                        } else {
+                            super::unwrap_sum_ty(&mut self.builder, sum_val, sum_ty, variant_ty)
+                        }
                     }
                 }
                 "is_variant" => {
